@@ -60,6 +60,10 @@ META = {
         "or all 1; the emitted list is decoded at a symbolic (chip, core) "
         "over the whole 256x256x18 space",
     "stubs": [
+        "unit 'through flood_fill_aplx': a MachineController subclass whose "
+        "_send_scp records the commands and whose read_struct_field returns "
+        "a constant; machine_controller.SCPConnection and .open are rebound "
+        "(no socket, an 8-byte binary); flood_fill_aplx itself is rig's",
         "rig.machine_control.regions.array -> SymArray in (2),(3): a model "
         "of array.array('H') that stores proxies and accepts a symbolic "
         "index without forking; an item outside 0..65535 or an index "
@@ -875,6 +879,100 @@ def h_whole(ctx, structure, free_bits, order):
               (cx, cy, cp, list(out)))
 
 
+def h_two_fills(ctx, free_bits):
+    """The pairs as the loader sees them: MachineController.flood_fill_aplx
+    (real code, transport replaced by a recorder) called twice on ONE
+    controller for the same chips with different cores, and once for other
+    chips; every fill's core-select packets must select exactly that fill's
+    targets."""
+    import io
+    from rig.machine_control import machine_controller as mcm
+    from rig.machine_control.consts import SCPCommands, NNCommands
+    k = 3
+    nfree = min(free_bits, 8 - k)
+    PX = PY = 0
+    if nfree:
+        PX = ctx.bv("px", nfree)
+        pin(PX, nfree)
+        PY = ctx.bv("py", nfree)
+        pin(PY, nfree)
+    PX, PY = PX << k, PY << k
+    fills = [
+        [_rect(0, 0, 4, 4, [1, 2]), _rect(5, 1, 1, 1, [3])],
+        # the same chips, other cores (one 4x4 block no longer uniform)
+        [_rect(0, 0, 4, 4, [2]), _rect(1, 1, 1, 1, [1]),
+         _rect(5, 1, 1, 1, [3, 17])],
+        # other chips
+        [_rect(4, 4, 4, 4, [1, 2])],
+    ]
+    sent = []
+
+    class Recorder(mcm.MachineController):
+        def _send_scp(self, x, y, p, cmd, arg1=0, arg2=0, arg3=0, *a, **kw):
+            sent.append((x, y, p, int(cmd), arg1, arg2, arg3))
+            return None
+
+        def read_struct_field(self, *a, **kw):
+            return 0x60000000
+    saved = mcm.__dict__.get("open")
+    saved_conn = mcm.SCPConnection
+    mcm.open = lambda *a, **kw: io.BytesIO(b"\0" * 8)
+    mcm.SCPConnection = lambda *a, **kw: object()
+    try:
+        mc = Recorder("host")
+        mc._scp_data_length = 256
+        cx = ctx.bv("cx", 8)
+        cy = ctx.bv("cy", 8)
+        cp = ctx.bv("cp", 5)
+        ctx.assume(cp <= 17)
+        for fi, rects in enumerate(fills):
+            chips = {}
+            for (x0, y0, w, h, cores) in rects:
+                for dx in range(w):
+                    for dy in range(h):
+                        chips.setdefault((x0 + dx, y0 + dy),
+                                         set()).update(cores)
+            targets = Targets([((PX | dx, PY | dy), set(cs))
+                               for (dx, dy), cs in sorted(chips.items())])
+            mark = len(sent)
+            try:
+                mc.flood_fill_aplx({"app.aplx": targets}, app_id=30,
+                                   wait=True)
+            except Exception as e:
+                ctx.observe(type(e).__name__)
+                ctx.prove(False, "flood-fill-raises-on-valid-targets",
+                          repr(e))
+                return
+            out = [(q[5], q[4] & 0x3ffff) for q in sent[mark:]
+                   if q[3] == int(SCPCommands.nearest_neighbour_packet) and
+                   (q[4] >> 24) == int(NNCommands.flood_fill_core_select)]
+            ctx.observe(fi, list(out))
+            ctx.prove(len(out) > 0, "flood-fill-empty-output")
+            for a, b in zip(out, out[1:]):
+                ctx.prove(pair_lt(a, b),
+                          "flood-fill-not-strictly-increasing", (fi, a, b))
+            requested = sor(*[
+                sand(cx == (PX | dx), cy == (PY | dy),
+                     sor(*[cp == c for c in sorted(cs)]))
+                for (dx, dy), cs in sorted(chips.items())])
+            count = 0
+            for (r, m) in out:
+                count = count + ite(sand(selects(r, cx, cy),
+                                         sub_core(m, cp)), 1, 0)
+            ctx.prove(simplies(requested, count == 1),
+                      "flood-fill-misses-core", (fi, cx, cy, cp, list(out)))
+            ctx.prove(simplies(snot(requested), count == 0),
+                      "flood-fill-selects-unrequested-core",
+                      (fi, cx, cy, cp, list(out)))
+        ctx.witness("emitted")
+    finally:
+        mcm.SCPConnection = saved_conn
+        if saved is None:
+            del mcm.__dict__["open"]
+        else:
+            mcm.open = saved
+
+
 def sub_core(mask, p):
     """Bit p of the core mask (case split over the 18 cores)."""
     return sor(*[sand(p == c, _bit(mask, c)) for c in range(18)])
@@ -980,6 +1078,9 @@ def units(tier, seed):
                  ("same mask at nested levels", 2, 0),
                  ("same mask at nested levels", 1, 1),
                  ("same mask at nested levels", 1, 2)]
+    us.append(Unit("through flood_fill_aplx: three fills, one controller",
+                   h_two_fills, dict(free_bits=1 if not thorough else 3),
+                   witnesses=("emitted",), split=2, path_timeout_s=300))
     for (st, fb, order) in whole:
         us.append(Unit("whole %s free=%d order=%d" % (st, fb, order), h_whole,
                        dict(structure=st, free_bits=fb, order=order),
